@@ -720,6 +720,82 @@ func init() {
 		}
 		return Slice{Obj: s.Obj, Off: s.Off, Len: n, Cap: s.Cap, Stride: 1}
 	})
+	bytesStr := func(e *Exec, v Value) Str {
+		s := v.(Slice)
+		if s.Len == 0 {
+			return Str{}
+		}
+		return Str{e.bytesOf(s)}
+	}
+	countOf := func(e *Exec, s, sep Str) int {
+		if len(sep.B) == 0 {
+			panic(unsupported("Count with empty separator"))
+		}
+		n, pos := 0, 0
+		for {
+			i := e.indexOf(s, sep, pos)
+			if i < 0 {
+				return n
+			}
+			n++
+			pos = i + len(sep.B)
+		}
+	}
+	reg("bytes.Count", func(e *Exec, fn *ssa.Function, a []Value) Value {
+		return e.tb.Const(64, uint64(countOf(e, bytesStr(e, a[0]), bytesStr(e, a[1]))))
+	})
+	reg("strings.Count", func(e *Exec, fn *ssa.Function, a []Value) Value {
+		return e.tb.Const(64, uint64(countOf(e, str(a[0]), str(a[1]))))
+	})
+	reg("bytes.Index", func(e *Exec, fn *ssa.Function, a []Value) Value {
+		return e.tb.ConstI(64, int64(e.indexOf(bytesStr(e, a[0]), bytesStr(e, a[1]), 0)))
+	})
+	reg("bytes.IndexByte", func(e *Exec, fn *ssa.Function, a []Value) Value {
+		return e.tb.ConstI(64, int64(e.indexOf(bytesStr(e, a[0]), Str{[]*sym.Term{a[1].(*sym.Term)}}, 0)))
+	})
+	reg("bytes.Contains", func(e *Exec, fn *ssa.Function, a []Value) Value {
+		return e.tb.Bool(e.indexOf(bytesStr(e, a[0]), bytesStr(e, a[1]), 0) >= 0)
+	})
+	reg("bytes.HasPrefix", func(e *Exec, fn *ssa.Function, a []Value) Value {
+		s, p := bytesStr(e, a[0]), bytesStr(e, a[1])
+		if len(p.B) > len(s.B) {
+			return e.tb.False
+		}
+		return e.strEq(Str{s.B[:len(p.B)]}, p)
+	})
+	reg("bytes.Split", func(e *Exec, fn *ssa.Function, a []Value) Value {
+		src := a[0].(Slice)
+		s, sep := bytesStr(e, a[0]), bytesStr(e, a[1])
+		if len(sep.B) == 0 {
+			panic(unsupported("bytes.Split with empty separator"))
+		}
+		type span struct{ lo, hi int }
+		var parts []span
+		pos := 0
+		for {
+			i := e.indexOf(s, sep, pos)
+			if i < 0 {
+				break
+			}
+			parts = append(parts, span{pos, i})
+			pos = i + len(sep.B)
+		}
+		parts = append(parts, span{pos, len(s.B)})
+		o := e.newObject(len(parts), "byteslices")
+		for i, p := range parts {
+			// sub-slices alias the source, with capacity clipped (bytes.Split uses s[:m:m])
+			if src.Obj == nil {
+				o.Cells[i] = Slice{}
+				continue
+			}
+			cp := p.hi - p.lo
+			if i == len(parts)-1 {
+				cp = src.Cap - p.lo
+			}
+			o.Cells[i] = Slice{Obj: src.Obj, Off: src.Off + p.lo, Len: p.hi - p.lo, Cap: cp, Stride: 1}
+		}
+		return Slice{Obj: o, Len: len(parts), Cap: len(parts), Stride: 1}
+	})
 	reg("strconv.Itoa", func(e *Exec, fn *ssa.Function, a []Value) Value {
 		return Str{e.formatDecimal(a[0].(*sym.Term), true)}
 	})
